@@ -624,6 +624,10 @@ Definition bin_op (o : binop) (a b : value) : outcome :=
   | OAdd, VArr l, VErr _ => OStuck
   | OAdd, VArr l, v => OVal (VArr (l ++ [v]))               (* array + anything else appends it *)
   | OSub, VInt x, VInt y => OVal (VInt (x - y))
+  (* a function value as an operand of + or - is a grol error ("no PLUS on left=.. right=..") *)
+  | OAdd, VFun _ _, _ | OSub, VFun _ _, _ => OVal (VErr err_msg)
+  | OAdd, VInt _, VFun _ _ | OSub, VInt _, VFun _ _ | OAdd, VStr _, VFun _ _ => OVal (VErr err_msg)
+  | OAdd, VInt _, VArr _ => OVal (VErr err_msg)             (* 1+[2]: "no PLUS on left=1 right=[2]" *)
   | OLt, VInt x, VInt y => OVal (VBool (Z.ltb x y))
   | _, _, _ => OStuck
   end.
